@@ -13,6 +13,7 @@ pub mod c17;
 pub mod common;
 pub mod rig;
 pub mod robs;
+pub mod rtc;
 pub mod wb;
 
 use crate::evidence::Ctx;
@@ -26,7 +27,9 @@ pub fn dispatch(ctx: &Ctx) -> Option<i32> {
         "C05" => c05_check(ctx),
         "C06" => c06_check(ctx),
         "C11" => c11_check(ctx),
+        "C12" => c12_check(ctx),
         "C13" => c13_check(ctx),
+        "C19" => c19_check(ctx),
         "C17" => c17_check(ctx),
         "C15" => c15_check(ctx),
         "C16" => c16_check(ctx),
@@ -433,6 +436,36 @@ fn c17_check(ctx: &Ctx) -> i32 {
         rule: "one case = one history: an Owner on endpoint A, 1-2 local lock clones and 0-2 clones on endpoint B (own or shared cache), each running a script of 1-7 reads (hold 0-10 virtual ms), writes (hold 0-5 ms, commit or drop) and pauses. Non-trivial iff at least two operations of different clients overlap in logical time. Distinct by hash of the recorded history.".into(),
         explanation: "Recorded on a global logical clock at the client boundary: request, guard obtained (with the value seen), guard released / commit returned. Oracles: no write guard interval overlaps any other guard interval; the value never changes under a read guard; every value read is the initial one or a committed one, not older than a commit that completed before the read began (no stale read), never an uncommitted one; after everything completed a final read returns the last committed value; no request is pending at quiescence although every guard was released.".into(),
         assumptions: vec!["exclusion and freshness judged on logical time at the client boundary (sound because the owner grants a write only after every copy was dropped)".into(), "deterministic virtual-time leg only (no multi-thread leg yet)".into()],
+        exhaustive: false,
+        min_nontrivial: ctx.tier.pick(300, 3000),
+        extra: BTreeMap::new(),
+    };
+    finish(ctx, agg, rep)
+}
+
+fn c12_check(ctx: &Ctx) -> i32 {
+    let budget = Duration::from_secs(ctx.tier.pick(30, 360));
+    let agg = shard_runs(ctx, "main", ctx.tier.pick(12_000, 1_000_000), budget, Duration::from_secs(30), Arc::new(|run, seed| rtc::run_one("C12", run, seed)));
+    let rep = Report {
+        level: "exploration",
+        rule: "one case = one epoch history: a served object (ServerRefMut, ServerSharedMut with spawn false/true) with 1-5 clients (clones used locally and clones transferred to a second endpoint), each running 1-6 calls: &self read, &mut read-suspend-write (0-3 virtual-time suspension points, deliberately not atomic inside), #[no_cancel] variant, suspending &self call, pauses; every call carries a unique id and every mutation contributes a unique bit. Non-trivial iff at least two calls of different clients overlap in logical time. Distinct by hash(flavour, recorded history).".into(),
+        explanation: "Per call: a returned callee result requires exactly one start and one finish in the target's execution log and the reply must echo the caller's id; a call error allows at most one execution. Linearizability: the bit sets returned by completed calls must be totally ordered by inclusion (a sequential order of the mutations), contain their own contribution, respect real-time order on the logical clock, and every acknowledged mutation must be in the final value. The server must still serve afterwards.".into(),
+        assumptions: vec!["register with commutative unique-bit updates: linearizability reduces to chain + real-time checks (exact for this model)".into(), "single-thread virtual-time leg; RFn/RFnMut/RFnOnce are not driven yet".into()],
+        exhaustive: false,
+        min_nontrivial: ctx.tier.pick(300, 3000),
+        extra: BTreeMap::new(),
+    };
+    finish(ctx, agg, rep)
+}
+
+fn c19_check(ctx: &Ctx) -> i32 {
+    let budget = Duration::from_secs(ctx.tier.pick(30, 360));
+    let agg = shard_runs(ctx, "main", ctx.tier.pick(12_000, 1_000_000), budget, Duration::from_secs(30), Arc::new(|run, seed| rtc::run_one("C19", run, seed)));
+    let rep = Report {
+        level: "exploration",
+        rule: "one case = one run of the C12 rig with 40% of the calls abandoned by their caller after 0-7 polls of the call future (never polled / queued / executing / replying), cancellable and #[no_cancel] &mut methods mixed, concurrent clients, and 0-2 failing calls from a client built from a newer trait version on a separate connection: unknown method, reply above the client's reply limit, request above the server's request limit. Non-trivial iff a cancellation landed after the callee had started or a failing call was injected. Distinct by hash(flavour, recorded history).".into(),
+        explanation: "An abandoned cancellable call must not pass another checkpoint after quiescence; an abandoned #[no_cancel] mutation that started must be in the final value; a fresh &mut call afterwards must be served (lock released, server not wedged); failing calls must fail only themselves: the next call on the same client and serve() must go on. The oversize-reply case is attributed to the known finding only by its exact signature.".into(),
+        assumptions: vec!["checkpoints are virtual-time sleeps inside the served methods".into()],
         exhaustive: false,
         min_nontrivial: ctx.tier.pick(300, 3000),
         extra: BTreeMap::new(),
